@@ -231,7 +231,7 @@ func (g *gen) leaf() ast.Expression {
 	case 3:
 		return Str(g.oneOf("s", "abc"))
 	case 4:
-		return RawStr(g.oneOf("r", "raw", "r", "a`b", "a\\\\`b", "\\$x", "$", "\\\\"))
+		return RawStr(g.oneOf("r", "raw", "r", "a\nb", "a`b", "a\\\\`b", "\\$x", "$", "\\\\"))
 	case 5:
 		return Bool(g.r.Intn(2) == 0)
 	default:
